@@ -962,4 +962,39 @@ theorem released_lag (stream : List Nat) :
       simp only [released, hk] at h
       exact shift _ _ h
 
+/-! ## Read-ahead does not matter -/
+
+/-- Forget how far the parser had read when it returned the event. -/
+def eraseRead (e : Ev) : Ev := { e with readOff := 0 }
+
+theorem isBoundary_erase (e : Ev) : isBoundary (eraseRead e) = isBoundary e := rfl
+
+theorem followed_erase : ∀ (l : List Ev), followed (l.map eraseRead) = followed l := by
+  intro l
+  induction l with
+  | nil => rfl
+  | cons e rest ih => simp only [List.map_cons, followed, ih, isBoundary_erase]
+
+theorem relIdx_erase : ∀ (l : List Ev), relIdx (l.map eraseRead) = relIdx l := by
+  intro l
+  induction l with
+  | nil => rfl
+  | cons e rest ih => simp only [List.map_cons, relIdx, ih, isBoundary_erase]
+
+/-- The specification looks at kinds and offsets only. -/
+theorem released_erase (stream : List Nat) :
+    ∀ (evs : List Ev) (idx cs : Nat) (cur : Option (Nat × Option DocKind)),
+      released stream idx cs cur (evs.map eraseRead) = released stream idx cs cur evs := by
+  intro evs
+  induction evs with
+  | nil => intros; rfl
+  | cons e rest ih =>
+    intro idx cs cur
+    have hk : (eraseRead e).kind = e.kind := rfl
+    have hs : (eraseRead e).start = e.start := rfl
+    have hp : (eraseRead e).stop = e.stop := rfl
+    cases hkind : e.kind <;>
+      simp only [List.map_cons, released, hk, hs, hp, hkind, ih, followed_erase, relIdx_erase]
+
+
 end Xt.Chunker
